@@ -229,7 +229,9 @@ protected:
 		}
 
 		using GetEvent = typename SelectGetEvent<Policies_, EventType_, HasFunctionGetEvent<Policies_, T &&, Args...>::value>::Type;
-		const auto e = GetEvent::getEvent(std::forward<T>(first), args...);
+		// `first` is passed on to the listeners below, so the policy gets it as an lvalue, as in EventDispatcher:
+		// forwarded as an rvalue, a getEvent taking its parameter by value would move the event away.
+		const auto e = GetEvent::getEvent(first, args...);
 		const CallbackList_ * callableList = doFindCallableList(e);
 		if(callableList) {
 			(*callableList)(std::forward<T>(first), std::forward<Args>(args)...);
